@@ -34,7 +34,7 @@ SPECS = {
     'C14': {'world': 'D', 'runs': {'quick': 12000, 'thorough': 200000}, 'real': REAL, 'stub': STUB,
             'assumptions': ['ordered-table reference model (sim/refmodel_table.py) is the specification',
                             'rejection of Context(*d) for invalid triples is not asserted here (C19 is not claimed)']},
-    'C17': {'world': 'X', 'runs': {'quick': 280, 'thorough': 3000}, 'k': {'quick': 4, 'thorough': 8},
+    'C17': {'world': 'X', 'runs': {'quick': 500, 'thorough': 3000}, 'k': {'quick': 4, 'thorough': 8},
             'real': REAL + ['PYTHONHASHSEED of every interpreter', 'ASLR (on, and off via setarch -R when permitted)'],
             'stub': ['the scheduler / plan generator (the set-order seam is switched off in this world)'],
             'assumptions': ['memory addresses are masked by the regex 0x[0-9a-f]+ as the statement allows; pickle bytes are not compared',
